@@ -30,8 +30,15 @@ LabelText(t, z, num, lossText, iso) ==
 (* ------------------------------ losses -------------------------------- *)
 (* a loss rule = [cls |-> set of residue letters, val |-> loss in 1e-6 Da (integer)];                     *)
 (* every matching residue of the fragment offers that loss once; up to maxLosses offers may be combined     *)
+(* a rule may look at the edge of the ION (its own residues, not the peptide's): edge = "any" | "first" ('^[..]') |  *)
+(* "last" ('[..]$') | "notafterA" ('(?<!A)[..]': not preceded, inside the ion, by A)                                   *)
+EdgeOk(edge, fragSeq, p) == CASE edge = "first" -> p = 1
+                              [] edge = "last" -> p = Len(fragSeq)
+                              [] edge = "notafterA" -> p = 1 \/ fragSeq[p - 1] # "A"
+                              [] OTHER -> TRUE
 Offers(fragSeq, rules) ==   \* sequence of offered loss values, one per (rule, matching residue)
-    FoldLeft(LAMBDA acc, r : acc \o [ k \in 1..Cardinality({ p \in 1..Len(fragSeq) : fragSeq[p] \in r.cls }) |-> r.val ],
+    FoldLeft(LAMBDA acc, r : acc \o [ k \in 1..Cardinality({ p \in 1..Len(fragSeq) : fragSeq[p] \in r.cls /\ EdgeOk(r.edge, fragSeq, p) })
+                                     |-> r.val ],
              <<>>, rules)
 RECURSIVE SubsetSums(_, _, _)
 (* sums of the sub-multisets with at most `left` elements of offers[i..] *)
